@@ -57,7 +57,7 @@ def run(chk):
                        "object qubit fields reach the simulator through the same calls (C06 renders gates through fields); the "
                        "file-vs-stdout clause runs the real command-line front end with the same forced draws"]
     import translate_tables
-    chk.prove(generated=[translate_tables.keywords, translate_tables.binding_table])
+    chk.prove(generated=[translate_tables.keywords, translate_tables.binding_table, translate_tables.qasm_lines])
     rng = chk.rng
     progs = [(o["source"], o.get("draws", [])) for _fn, o in load_corpus("C05") if "source" in o]
     feats = {}
